@@ -86,6 +86,19 @@ def _census(out):
     return c
 
 
+def _by_file(hits):
+    """The main database file and the other files of the wallet directory (rollback journal, temporary files) are reported under
+    different keys: the property statement names the database file; the journal is what the design additionally asks to look at."""
+    db = [h for h in hits if h["file"] == "wallet.dat"]
+    other = [h for h in hits if h["file"] != "wallet.dat"]
+    out = []
+    if db:
+        out.append(("secret-on-disk-after-encrypt", db))
+    if other:
+        out.append(("secret-in-journal-after-encrypt", other))
+    return out
+
+
 def judge(r, k, sem, res):
     v = wc.load_failure(r, k, sem, res)
     if v:
@@ -121,8 +134,8 @@ def judge(r, k, sem, res):
         if not enc:
             v.append(("encryption-lost-after-crash:" + suffix, "EncryptWallet had returned before the crash point, the recovered wallet is unencrypted", {}))
         hits = out.get("scan_before_load", [])
-        if hits:
-            v.append(("secret-on-disk-after-encrypt", "image taken after EncryptWallet returned contains %d secret(s): %s" % (len(hits), hits[:3]), {"hits": hits[:10]}))
+        for key, sel in _by_file(hits):
+            v.append((key, "image taken after EncryptWallet returned contains %d secret(s): %s" % (len(sel), sel[:3]), {"hits": sel[:10]}))
     return v
 
 
@@ -165,10 +178,9 @@ def _check_encrypt_case(rec, st):
         return
     tests, descs, keys = rec["tests"], rec["descs"], rec["keys"]
     for when in ("after_encrypt", "after_change", "after_unload", "final"):
-        hits = rec.get("scan_" + when)
-        if hits:
-            files = sorted(set(h["file"] for h in hits))
-            bad("secret-on-disk-after-encrypt", "%d secret(s) found %s in %s: %s" % (len(hits), when.replace("_", " "), files, hits[:3]))
+        for key, sel in _by_file(rec.get("scan_" + when) or []):
+            files = sorted(set(h["file"] for h in sel))
+            bad(key, "%d secret(s) found %s in %s: %s" % (len(sel), when.replace("_", " "), files, sel[:3]))
     if not rec.get("locked_after_encrypt"):
         bad("not-locked-after-encrypt", "wallet is not locked when EncryptWallet returns")
     if rec.get("locked_signed") or rec.get("locked_getkey") or rec.get("locked_priv"):
